@@ -388,3 +388,16 @@ def innermost_loop(fn, bb):
 
 
 def pos(site): return (site.bb, site.idx)
+
+
+def rel_edges(t, fn, lhs_pred, rhs_pred, rel):
+    """CFG edges of fn on which `lhs <rel> rhs` holds exactly (rel in Lt, Le, Gt, Ge, Eq, Ne), whatever way the test is written:
+    either operand order, negated conditions, `!(a < b)` for `a >= b`, a comparison stored in a bool first. Yields (edge, branch)."""
+    for br in t.branches(fn):
+        if br["kind"] != "bool" or br["cond"][0] != "cmp": continue
+        _, op, a, b = br["cond"]
+        for (x, y, o) in ((a, b, op), (b, a, MIRROR[op])):
+            if lhs_pred(x) and rhs_pred(y):
+                if o == rel: yield br["t_edge"], br
+                if NEGATE[o] == rel: yield br["f_edge"], br
+                break
